@@ -2207,8 +2207,14 @@ static void compile_stmt(CG *cg, ASTNode *node) {
     }
 
     case AST_BLOCK: {
+        uint16_t first_local = cg->local_count;
         for (int i = 0; i < node->as.block.count; i++) {
             compile_stmt(cg, node->as.block.statements[i]);
+        }
+        /* Names declared in this block go out of scope here (their slots stay
+         * allocated): an outer variable shadowed inside the block is visible again */
+        for (uint16_t i = first_local; i < cg->local_count; i++) {
+            cg->locals[i].name = "";
         }
         break;
     }
